@@ -24,6 +24,7 @@ import (
 // expanded, so that no function's path count grows before the opaque
 // functions are known.
 const maxInlineIfs = 12
+const anchorInlineIfs = 12
 
 func (w *World) setInlineBudget(n int) {
 	if w.inlBudget != n {
@@ -62,6 +63,19 @@ func (w *World) computeCallFacts() {
 	w.callers = map[*ssa.Function][]*ssa.Function{}
 	callees := map[*ssa.Function][]*ssa.Function{}
 	ifaceTypes := map[types.Type]bool{}
+	invoked := map[string]bool{} // method names of the packages' interfaces and dynamic call sites
+	for _, pk := range []*ssa.Package{w.SLib, w.SCmd} {
+		sc := pk.Pkg.Scope()
+		for _, n := range sc.Names() {
+			if tn, ok := sc.Lookup(n).(*types.TypeName); ok {
+				if it, ok := tn.Type().Underlying().(*types.Interface); ok {
+					for i := 0; i < it.NumMethods(); i++ {
+						invoked[it.Method(i).Name()] = true
+					}
+				}
+			}
+		}
+	}
 	for fn := range ssautil.AllFunctions(w.Prog) {
 		if !w.inPkgs(fn) && fn.Synthetic == "" {
 			continue
@@ -69,6 +83,9 @@ func (w *World) computeCallFacts() {
 		for _, b := range fn.Blocks {
 			for _, in := range b.Instrs {
 				var static *ssa.Value
+				if ci, ok := in.(ssa.CallInstruction); ok && ci.Common().IsInvoke() {
+					invoked[ci.Common().Method.Name()] = true
+				}
 				if c, ok := in.(*ssa.Call); ok && !c.Call.IsInvoke() {
 					static = &c.Call.Value
 					if cal := c.Call.StaticCallee(); cal != nil && w.inPkgs(cal) && w.inPkgs(fn) && fn.Synthetic == "" {
@@ -90,10 +107,12 @@ func (w *World) computeCallFacts() {
 			}
 		}
 	}
+	// a method of a type that is converted to an interface can be called
+	// dynamically if some interface (or dynamic call site) names it
 	for t := range ifaceTypes {
 		ms := w.Prog.MethodSets.MethodSet(t)
 		for i := 0; i < ms.Len(); i++ {
-			if f := w.Prog.MethodValue(ms.At(i)); f != nil && w.inPkgs(f) {
+			if f := w.Prog.MethodValue(ms.At(i)); f != nil && w.inPkgs(f) && (ast.IsExported(f.Name()) || invoked[f.Name()]) {
 				w.addrTaken[f] = true
 			}
 		}
